@@ -7,8 +7,9 @@ MCLayouts == [sep : (IF Quick THEN {"sp", "nl"} ELSE {"sp", "tab", "nl"}),
               eq : (IF Quick THEN {"eq", "sp_eq_sp"} ELSE {"eq", "sp_eq_sp", "nl_eq"}),
               trail : (IF Quick THEN {""} ELSE {"", "sp"}),
               endsp : {"plain", "inner"}]
-Looks == {"b_tag", "lone_lt", "a_lt_b", "blockquote", "selfclose", "upper", "spaced", "noattr_glued", "unterminated"}
+Looks == {"b_tag", "lone_lt", "a_lt_b", "blockquote", "selfclose", "upper", "spaced", "noattr_glued", "unterminated", "unterminated_dq"}
 MCNoisePairs == {[before |-> "none", after |-> "none"], [before |-> "text", after |-> "text"]}
                 \cup {[before |-> x, after |-> "text"] : x \in Looks}
                 \cup {[before |-> "text", after |-> x] : x \in Looks}
+                \cup {[before |-> "glued_after_end", after |-> "none"]}
 =============================================================================
